@@ -179,9 +179,13 @@ class RepoIndex:
         return any(ci.name == b for ci in self.mro(a))
 
     def lookup_method(self, cls: str, name: str):
+        import ast as _ast
         for ci in self.mro(cls):
             if name in ci.methods:
                 return ci.methods[name]
+            alias = ci.consts.get(name)           # class-level alias:  __radd__ = __add__
+            if isinstance(alias, _ast.Name) and alias.id in ci.methods:
+                return ci.methods[alias.id]
         return None
 
     def lookup_setter(self, cls: str, name: str):
